@@ -36,7 +36,7 @@ RULE = ('files: Hypothesis draws a model (1..4 passes, 1..20 distinct channel na
         'some pass has >= 2 channels and >= 2 data sets with different frame counts.  words: every (sign, characteristic) '
         'byte x boundary fractions + a Weyl sequence of fractions, and complete fraction ranges for selected top bytes '
         '(thorough: all 2^24 fractions for 16 top bytes per decoder, all 2^32 words for gen_floats when VERIF_C13_FULL=1); '
-        'non-trivial: fraction != 0.  Distinct = distinct model / distinct word.')
+        'non-trivial: fraction != 0.  Distinct = distinct model / distinct (decoder, word) - every word of the strata of a decoder is visited once.')
 ASSUMPTIONS = [
     'header spacing is positive and start != stop (the only form in the bundled file; LogPassRange assumes it)',
     'channel names of a pass are distinct and none is "X   " (the reader names its computed axis "X   " and '
@@ -205,23 +205,28 @@ def word_strata(tier, decoder, seed):
             for lo in range(0, 1 << 24, CHUNK):
                 chunks.append(('range', top, lo, lo + CHUNK))
         return 'all 2^32 words', chunks
-    tops = np.arange(256, dtype=np.uint32) << np.uint32(24)
-    allw = (tops[:, None] | per_top[None, :]).reshape(-1)
-    for i in range(0, len(allw), CHUNK):
-        chunks.append(('array', allw[i:i + CHUNK]))
     if tier == 'quick':
-        for top in QUICK_TOPS:
-            chunks.append(('range', top, 0, 1 << 15))
-            chunks.append(('range', top, (1 << 20) - (1 << 14), (1 << 20) + (1 << 14)))
-            chunks.append(('range', top, (1 << 24) - (1 << 15), 1 << 24))
+        ranges = {top: [(0, 1 << 15), ((1 << 20) - (1 << 14), (1 << 20) + (1 << 14)), ((1 << 24) - (1 << 15), 1 << 24)]
+                  for top in QUICK_TOPS}
         desc = ('all 256 (sign, characteristic) bytes x (%d boundary fractions + %d Weyl fractions); fractions 0..2^15, '
                 '2^20 +- 2^14, 2^24-2^15..2^24 for top bytes %s' % (len(bf), nweyl, ['%02x' % t for t in QUICK_TOPS]))
     else:
-        for top in THOROUGH_TOPS:
-            for lo in range(0, 1 << 24, CHUNK):
-                chunks.append(('range', top, lo, lo + CHUNK))
+        ranges = {top: [(lo, lo + CHUNK) for lo in range(0, 1 << 24, CHUNK)] for top in THOROUGH_TOPS}
         desc = ('all 256 (sign, characteristic) bytes x (%d boundary fractions + %d Weyl fractions); all 2^24 fractions '
                 'for top bytes %s' % (len(bf), nweyl, ['%02x' % t for t in THOROUGH_TOPS]))
+    # every word once: fractions of the per-top sample that fall into a complete range of that top byte are left out
+    parts_ = []
+    for top in range(256):
+        fr = per_top
+        for lo, hi in ranges.get(top, []):
+            fr = fr[(fr < lo) | (fr >= hi)]
+        parts_.append(fr | np.uint32(top << 24))
+    allw = np.concatenate(parts_)
+    for i in range(0, len(allw), CHUNK):
+        chunks.append(('array', allw[i:i + CHUNK]))
+    for top in sorted(ranges):
+        for lo, hi in ranges[top]:
+            chunks.append(('range', top, lo, hi))
     return desc, chunks
 
 
@@ -297,6 +302,7 @@ def run_words(ctx, part, tier, shard, nshards):
         notes['sweep_%s_words' % name] = swept
         notes['sweep_%s_failing' % name] = failing
         notes['sweep_%s_failing_ffffff_form' % name] = known_form
+        notes['sweep_%s_failing_other_form_counted_only' % name] = failing - known_form - individually
         if shard == 0:
             ctx.note('sweep_%s_domain' % name, desc)
     for k, v in notes.items():
